@@ -168,6 +168,16 @@ def rule_rules(ctx, R, F):
     R.eq('toInstr', '%s:%d' % (ti['file'], ti['line']), exp, a)
 
 
+def size_local(f):
+    """the local that counts the instructions of the program: the argument of prog.setSize(...)"""
+    sz = [c for c in calls(f['body']) if c.get('name') == 'setSize' and c.get('a')]
+    ids = set(ref_id(c['a'][0]) for c in sz)
+    ids.discard(None)
+    if len(ids) != 1:
+        raise AnalysisBroken('generateSuperscalar: the program-size local (argument of setSize) was not found')
+    return ids.pop()
+
+
 def rule_size(ctx, R, F):
     R.rule('SS-SIZE', 'the only append prog(programSize++) happens for an instruction created after the guard `programSize >= SuperscalarMaxSize -> break`; the decode loop tests the same bound; the program buffer has SuperscalarMaxSize entries; '
            'SuperscalarMaxSize = 3 * RANDOMX_SUPERSCALAR_LATENCY + 2', min_instances=5)
@@ -180,14 +190,7 @@ def rule_size(ctx, R, F):
     rec = F.record('randomx::SuperscalarProgram')
     buf = [fl for fl in rec['fields'] if fl['name'] == 'programBuffer']
     R.check(bool(buf) and buf[0].get('arrlen') == mx, 'programBuffer length', '%s:%d' % (rec['file'], rec['line']), expected=mx, found=buf[0].get('arrlen') if buf else None)
-    ps = None
-    for x in walk(f['body']):
-        if x['k'] == 'Decl':
-            for d in x['d']:
-                if d['name'] == 'programSize':
-                    ps = d['id']
-    if ps is None:
-        raise AnalysisBroken('generateSuperscalar: programSize not found')
+    ps = size_local(f)
     incs = [x for x in walk(f['body']) if x['k'] == 'Un' and x['op'] == '++' and ref_id(x['e']) == ps]
     writes = [x for x in walk(f['body']) if x['k'] in ('Assign', 'CAssign') and ref_id(x['l']) == ps]
     R.check(len(incs) == 1 and not writes, 'single append site', where, expected='one programSize++', found='%d increments, %d other writes' % (len(incs), len(writes)))
@@ -216,9 +219,17 @@ def rule_size(ctx, R, F):
         R.check(not between, 'no append between guard and creation', where, expected='none', found=between)
     # append only when all macro-ops of the current instruction are issued
     app_if = [x for x in walk(f['body']) if x['k'] == 'If' and incs and any(y is incs[0] for y in walk(x['t']))]
-    with astq.nocasts():
-        cond = showv(app_if[-1]['c']) if app_if else None
-    R.check(cond == '(macroOpIndex >= currentInstruction.getInfo().getSize())', 'append when the instruction is complete', where, expected='if (macroOpIndex >= currentInstruction.getInfo().getSize())', found=cond)
+    okc = False
+    cond = None
+    if app_if:
+        c_ = strip_all(app_if[-1]['c'])
+        with astq.nocasts():
+            cond = showv(c_)
+        l_ = strip_all(c_['l']) if c_['k'] == 'Bin' else None
+        while l_ is not None and l_['k'] == 'Cast':
+            l_ = strip_all(l_['e'])
+        okc = c_['k'] == 'Bin' and c_['op'] == '>=' and l_ is not None and l_['k'] == 'Ref' and l_.get('id') is not None and show(c_['r']).endswith('.getInfo().getSize()')
+    R.check(okc, 'append when the instruction is complete', where, expected='if (<macro-op index> >= <current instruction>.getInfo().getSize())', found=cond)
     sz = [c for c in calls(f['body']) if c.get('name') == 'setSize']
     R.check(len(sz) == 1 and ref_id(sz[0]['a'][0]) == ps, 'program size recorded', where, expected='prog.setSize(programSize)', found=[show(c) for c in sz])
 
@@ -234,11 +245,25 @@ def rule_addrreg(ctx, R, F):
     ren = {f['params'][0]['id']: 'PROG'}
     for l in tail:
         ren[l['init']['d'][0]['id']] = 'I'
-    for x in walk(f['body']):
-        if x['k'] == 'Decl':
-            for d in x['d']:
-                if d['name'] in ('asicLatencyMax', 'addressReg', 'programSize', 'latDst', 'latSrc', 'instr'):
-                    ren[d['id']] = d['name']
+    ren[size_local(f)] = 'programSize'
+    sa = [c for c in calls(f['body']) if c.get('name') == 'setAddressRegister' and c.get('a')]
+    addr_id = ref_id(sa[0]['a'][0]) if len(sa) == 1 else None
+    if addr_id is None:
+        raise AnalysisBroken('generateSuperscalar: the address-register local (argument of setAddressRegister) was not found')
+    ren[addr_id] = 'addressReg'
+    for i_ in [x for x in walk(tail[1]['b']) if x['k'] == 'If']:
+        for y in walk(i_['t']):
+            if y['k'] == 'Assign' and ref_id(y['l']) not in (None, addr_id):
+                ren[ref_id(y['l'])] = 'asicLatencyMax'
+    order = ['instr', 'latDst', 'latSrc']
+    k_ = 0
+    for s_ in (tail[0]['b']['s'] if tail[0]['b']['k'] == 'Compound' else []):
+        if s_['k'] == 'Decl':
+            for d in s_['d']:
+                if k_ < len(order):
+                    ren[d['id']] = order[k_]
+                    k_ += 1
+    role_ids = {v: k for k, v in ren.items()}
     with astq.renaming(ren), astq.nocasts():
         b0 = [showv(s) for s in tail[0]['b']['s']]
         c0 = showv(tail[0]['c'])
@@ -251,7 +276,7 @@ def rule_addrreg(ctx, R, F):
     exp1 = "if (PROG.asicLatencies[I] > asicLatencyMax): ['(asicLatencyMax = PROG.asicLatencies[I])', '(addressReg = I)']"
     R.check(loop_trip(tail[1]) == 8 and exp1 in b1, 'arg-max over r0-r7', loc(tail[1], f), expected=exp1, found=b1)
     R.check(len(ms) == 1 and setr == ['PROG.setAddressRegister(addressReg)'], 'latencies reset and register recorded', where, expected='memset(asicLatencies, 0, ..); setAddressRegister(addressReg)', found=(ms, setr))
-    init = [d for x in walk(f['body']) if x['k'] == 'Decl' for d in x['d'] if d['name'] in ('asicLatencyMax', 'addressReg')]
+    init = [d for x in walk(f['body']) if x['k'] == 'Decl' for d in x['d'] if d['id'] in (role_ids.get('asicLatencyMax'), role_ids.get('addressReg'))]
     R.check(all(val(d.get('init')) == 0 for d in init) and len(init) == 2, 'search starts at (0, r0)', where, expected='asicLatencyMax = 0, addressReg = 0', found=[(d['name'], val(d.get('init'))) for d in init])
 
 
